@@ -460,11 +460,18 @@ struct StreamSim : Sim {
         }
 
         // ---- mh / murmur
-        void mh_init(St &s, SClient &c, int ci)
+        void mh_init(St &s, SClient &c, int ci, bool again = false)
         {
                 Env &e = *s.env;
                 LegacyScope legacy_scope(e, c.api == 2);
                 int k = c.kind; // 0,1,2 index into S.mh_*
+                if (!again && (mix64(s.p->seed, 0x2ed1 + (uint64_t) ci + 16 * (uint64_t) c.epoch) & 3) == 0) {
+                        // recycled object (see roll_setup): init, partial overwrite, init again
+                        mh_init(s, c, ci, true);
+                        size_t sz = c.kind == K_MH1 ? sizeof(struct isal_mh_sha1_ctx) : c.kind == K_MH256 ? sizeof(struct isal_mh_sha256_ctx) : sizeof(struct isal_mh_sha1_murmur3_x64_128_ctx);
+                        e.recycle_corrupt(c.ctx, sz, mix64(s.p->seed, 0x2ed2 + (uint64_t) ci));
+                        s.r->cov.hit("fault_object_recycled_between_two_inits_mh");
+                }
                 if (c.kind == K_MUR) {
                         if (c.api)
                                 e.call("isal_mh_sha1_murmur3_x64_128_init", S.mh_isal_init[k], { U(c.ctx), c.mur_seed });
@@ -614,6 +621,16 @@ struct StreamSim : Sim {
                                 e.violation("C09", "init-failed", "C09/init-failed", strfmt("isal_rolling_hash2_init(w=%u) returned %d", c.w, (int) rc));
                 } else
                         e.call("_rolling_hash2_init", S.roll_init, { U(c.ctx), c.w });
+                if ((mix64(s.p->seed, 0x2ec7 + (uint64_t) ci) & 3) == 0) {
+                        // recycled object: the state is initialised, its memory is then partly overwritten (used for something else), and it is
+                        // initialised again with the same parameters - the second init must not trust anything it finds
+                        e.recycle_corrupt(c.ctx, sizeof(struct isal_rh_state2), mix64(s.p->seed, 0x2ec8 + (uint64_t) ci));
+                        s.r->cov.hit("fault_object_recycled_between_two_inits_rolling");
+                        if (c.api)
+                                e.call("isal_rolling_hash2_init", S.roll_isal_init, { U(c.ctx), c.w });
+                        else
+                                e.call("_rolling_hash2_init", S.roll_init, { U(c.ctx), c.w });
+                }
                 c.noreset = s.p->get(strfmt("c%d_noreset", ci).c_str()) != 0 && c.epoch == 0;
                 if (c.noreset) {
                         s.r->cov.hit("probe_rolling_run_without_reset");
